@@ -21,9 +21,13 @@ SPEC = dict(
                "Power-loss reordering below the file-system API is not modelled. strace counts invocations per system call and thread; the crash points are therefore enumerated as (call name, n) pairs taken from a tracing run; points not reached are counted.",
     engines=[dict(name="crashwrite", shards=T(16, 16), timeout=T(1500, 7200), needs_wtf=True)],
     rule="case = (operation, prepared state, fault flavour, k, n); non-trivial = the fault actually hit (limit below the new length, or the child was killed); "
-         "distinct by (operation, state, flavour, k, n).",
-    floors=T({"faults-efbig-biting": 600, "faults-killed": 300, "killed-on:write": 50, "killed-on:fsync": 2, "killed-on:renameat": 2, "after-efbig-old": 1, "follow-up-after-kill": 15, "distinct_nontrivial": 900, "full-volume-runs": 25, "full-volume-with-leftover-files": 10, "efbig-dense-around-previous-length": 3, "in-process-sequences-with-a-failed-save": 12, "layout:hard-linked": 48, "layout:symlinked": 48},
-             {"faults-efbig-biting": 20000, "faults-killed": 400, "killed-on:write": 50, "killed-on:fsync": 2, "killed-on:renameat": 2, "after-efbig-old": 1, "follow-up-after-kill": 15, "distinct_nontrivial": 20000, "full-volume-runs": 25, "full-volume-with-leftover-files": 10, "efbig-dense-around-previous-length": 3, "in-process-sequences-with-a-failed-save": 12, "layout:hard-linked": 48, "layout:symlinked": 48}),
+         "distinct by (operation, state, flavour, k, n). "
+         "Prepared states include files last written three days ago and (when /dev/shm is a separate file system; counted in "
+         "states-with-TMPDIR-on-another-volume, no floor because the sandbox decides) runs with TMPDIR on another volume than the configuration directory. "
+         "after-earlier-writes-*: two ordinary saves (searches) succeed on the prepared state, the third fails after k bytes or is killed at a system call; the "
+         "file then holds what the second left or the complete third content.",
+    floors=T({"after-earlier-writes-new": 120, "after-earlier-writes-old": 60, "after-earlier-writes-on-files-written-days-ago": 24, "states-written-days-ago": 80, "faults-efbig-biting": 600, "faults-killed": 300, "killed-on:write": 50, "killed-on:fsync": 2, "killed-on:renameat": 2, "after-efbig-old": 1, "follow-up-after-kill": 15, "distinct_nontrivial": 900, "full-volume-runs": 25, "full-volume-with-leftover-files": 10, "efbig-dense-around-previous-length": 3, "in-process-sequences-with-a-failed-save": 12, "layout:hard-linked": 48, "layout:symlinked": 48},
+             {"after-earlier-writes-new": 120, "after-earlier-writes-old": 60, "after-earlier-writes-on-files-written-days-ago": 24, "states-written-days-ago": 80, "faults-efbig-biting": 20000, "faults-killed": 400, "killed-on:write": 50, "killed-on:fsync": 2, "killed-on:renameat": 2, "after-efbig-old": 1, "follow-up-after-kill": 15, "distinct_nontrivial": 20000, "full-volume-runs": 25, "full-volume-with-leftover-files": 10, "efbig-dense-around-previous-length": 3, "in-process-sequences-with-a-failed-save": 12, "layout:hard-linked": 48, "layout:symlinked": 48}),
     assumptions=["a file that did not exist before and is empty afterwards counts as previous content",
                  "the Go runtime ignores SIGXFSZ, so RLIMIT_FSIZE yields a short write followed by EFBIG"],
 )
